@@ -39,7 +39,8 @@ META = {
         'quick': {'op:union': 1, 'op:intersection': 1, 'op:difference': 1, 'op:collect': 1, 'op:subType': 1,
                   'op:variable': 1, 'op:transitive': 1, 'class:setop-multi-source': 1, 'class:transitive-cycle': 1,
                   'class:self-link': 1, 'class:subType-mixed': 1, 'class:variable-on-ancestor': 1,
-                  'class:setop-lhs-empty': 1, 'class:setop-overlap': 1, 'edges-compared': 100},
+                  'class:setop-lhs-empty': 1, 'class:setop-overlap': 1, 'edges-compared': 100,
+                  'class:model-reached-through-edit-history': 20},
         'thorough': {'op:union': 100, 'op:intersection': 100, 'op:difference': 100, 'op:collect': 100,
                      'op:subType': 100, 'op:variable': 100, 'op:transitive': 100, 'class:setop-multi-source': 20,
                      'class:transitive-cycle': 20, 'class:self-link': 20, 'class:subType-mixed': 20,
@@ -270,7 +271,16 @@ def _check_case(case, res, direct_cap=250, count=True):
     divergence or None; may register an inconclusive reason"""
     import maltoolbox.attackgraph.attackgraph as agmod
     try:
-        built = Built(case, attackers=False)
+        if 'history' in case:
+            from ..shadow import Divergence
+            try:
+                built = Built.from_history(case)
+            except Divergence:
+                return None        # the history itself misbehaves: C05's business
+            if count:
+                res.count('class:model-reached-through-edit-history')
+        else:
+            built = Built(case, attackers=False)
     except Exception as exc:
         # a well-formed language / valid model must be accepted
         return ('build:raised-%s' % type(exc).__name__,
@@ -438,9 +448,15 @@ def run(rng, res, tier, shard, nshards):
     budget = Budget(CASES[tier] // nshards + 1, SECONDS[tier])
     while budget.more():
         case = gen_case(rng, lcfg_for(rng), MCfg(), corelang_share=0.04)
+        if case['source'] == 'generated' and rng.random() < 0.15:
+            # the same language, but the model is reached through adds AND removals
+            from ..shadow import gen_history
+            case = {'source': 'history', 'spec': case['spec'], 'amodel': {'assets': [], 'links': [], 'attackers': []},
+                    'history': gen_history(rng, Lang(case['spec']), rng.randint(5, 40), invalid=0.0, attackers=False,
+                                           names=['srv', 'db', 'n', 'x', 'y', None])}
         first = check_case(case, res)
         nt = res.notes.pop('_nt', False)
-        res.case(digest([case['spec'], case['amodel']]) if nt else None)
+        res.case(digest([case['spec'], case['amodel'], case.get('history')]) if nt else None)
         if res.evaluations <= 2 and case['source'] == 'generated':
             res.sample({'language_assets': [a['name'] + ('<' + a['superAsset'] if a['superAsset'] else '') for a in case['spec']['assets']],
                         'a_reaches_expression': _first_expr(case['spec']),
@@ -454,7 +470,10 @@ def run(rng, res, tier, shard, nshards):
                 r2 = Result('C01', 'shrink', 0, 0)
                 f2 = check_case(c, r2, direct_cap=120, count=False)
                 return f2 is not None and f2[0] == key
-            small, runs = shrink_case(case, still, max_runs=60)
+            if 'history' in case:
+                small, runs = case, 0
+            else:
+                small, runs = shrink_case(case, still, max_runs=60)
             res.violation(key, what, {'minimised': small, 'original': case, 'shrink_runs': runs})
     if budget.timed_out():
         res.notes['time-cap-hit'] = True
